@@ -134,6 +134,37 @@ pub async fn raw_connect(endpoint_text: &str) -> std::io::Result<RawConn> {
     })
 }
 
+/// A client that is gone before the listener has taken it from the backlog: connects and
+/// closes SYNCHRONOUSLY (no await in between, so on the single-threaded runtime the accept task
+/// cannot run in the meantime). TCP: closes with SO_LINGER 0, i.e. an RST that reaches the
+/// connection while it still waits in the accept queue (then `accept()` hands out a socket on
+/// which e.g. `peer_addr()` fails with ENOTCONN and reads fail with ECONNRESET); with
+/// `reset == false`, and always on IPC, an orderly close.
+pub fn abort_connect(endpoint_text: &str, reset: bool) -> std::io::Result<()> {
+    if let Some(rest) = endpoint_text.strip_prefix("tcp://") {
+        let (host, port) = rest.rsplit_once(':').ok_or_else(|| std::io::Error::new(std::io::ErrorKind::InvalidInput, "no port"))?;
+        let host = host.trim_start_matches('[').trim_end_matches(']');
+        let port: u16 = port.parse().map_err(|_| std::io::Error::new(std::io::ErrorKind::InvalidInput, "bad port"))?;
+        let s = std::net::TcpStream::connect((host, port))?;
+        if reset {
+            use std::os::unix::io::AsRawFd;
+            let l = libc::linger { l_onoff: 1, l_linger: 0 };
+            let r = unsafe { libc::setsockopt(s.as_raw_fd(), libc::SOL_SOCKET, libc::SO_LINGER, &l as *const _ as *const libc::c_void, std::mem::size_of::<libc::linger>() as libc::socklen_t) };
+            if r != 0 {
+                return Err(std::io::Error::last_os_error());
+            }
+        }
+        drop(s);
+        Ok(())
+    } else if let Some(path) = endpoint_text.strip_prefix("ipc://") {
+        let s = std::os::unix::net::UnixStream::connect(path)?;
+        drop(s);
+        Ok(())
+    } else {
+        Err(std::io::Error::new(std::io::ErrorKind::InvalidInput, "unknown scheme"))
+    }
+}
+
 impl RawConn {
     pub async fn write(&mut self, data: &[u8]) -> std::io::Result<()> {
         match &mut self.stream {
